@@ -12,8 +12,15 @@
 static void s_check(char* s) { __CPROVER_assert(S_P(s) == S_BUF(s), "MODEL: std::string operand not in SSO form"); __CPROVER_assume(S_P(s) == S_BUF(s)); }
 static void s_bound(uint64_t n) { __CPROVER_assert(n <= S_CAP, "BOUND: std::string longer than 15 bytes (outside the SSO-only string model)"); __CPROVER_assume(n <= S_CAP); }
 static void s_init(char* s) { S_P(s) = S_BUF(s); S_N(s) = 0; S_BUF(s)[0] = 0; }
-static void s_set(char* s, const char* src, uint64_t n) { s_bound(n); for (uint64_t i = 0; i < n && i < S_CAP; i++) S_BUF(s)[i] = src[i]; S_BUF(s)[n] = 0; S_N(s) = n; S_P(s) = S_BUF(s); }
-static void s_app(char* s, const char* src, uint64_t n) { s_check(s); uint64_t o = S_N(s); s_bound(o); s_bound(o + n); for (uint64_t i = 0; i < n && i < S_CAP; i++) S_BUF(s)[o + i] = src[i]; S_BUF(s)[o + n] = 0; S_N(s) = o + n; }
+/* All stores use CONSTANT offsets guarded by a comparison (never buf[symbolic]): a store through a char* with a symbolic offset
+   into a string that is a member of a larger object makes CBMC rebuild the whole enclosing object byte by byte. */
+static void s_store(char* s, uint64_t idx, char c) {
+  char* b = S_BUF(s);
+  if (idx == 0) b[0] = c; if (idx == 1) b[1] = c; if (idx == 2) b[2] = c; if (idx == 3) b[3] = c; if (idx == 4) b[4] = c; if (idx == 5) b[5] = c; if (idx == 6) b[6] = c; if (idx == 7) b[7] = c;
+  if (idx == 8) b[8] = c; if (idx == 9) b[9] = c; if (idx == 10) b[10] = c; if (idx == 11) b[11] = c; if (idx == 12) b[12] = c; if (idx == 13) b[13] = c; if (idx == 14) b[14] = c; if (idx == 15) b[15] = c;
+}
+static void s_set(char* s, const char* src, uint64_t n) { s_bound(n); for (uint64_t i = 0; i < n && i < S_CAP; i++) s_store(s, i, src[i]); s_store(s, n, 0); S_N(s) = n; S_P(s) = S_BUF(s); }
+static void s_app(char* s, const char* src, uint64_t n) { s_check(s); uint64_t o = S_N(s); s_bound(o); s_bound(o + n); for (uint64_t i = 0; i < n && i < S_CAP; i++) s_store(s, o + i, src[i]); s_store(s, o + n, 0); S_N(s) = o + n; }
 #ifdef STRING_LITERALS_OPAQUE
 /* cut: NUL-terminated literals (error-message text) are value-irrelevant in this harness; they become empty strings */
 static uint64_t s_len(const char* c) { return 0; }
